@@ -34,8 +34,8 @@ def generate(run_seed, tier):
     try:
         fams = list(W.FAMILIES)
         rw.shuffle(fams)
-        fams = [f for f in fams[: rw.randint(7, len(fams))] if f != "twin"]
-        fams += ["set_index", "sort_values", "repartition", "merge"]  # state kept outside operands lives here
+        fams = [f for f in fams[: rw.randint(7, len(fams))]]
+        fams += ["set_index", "sort_values", "repartition", "merge", "twin", "twin"]  # state kept outside operands lives here
         refw = reference_world()
 
         def ref_compute(coll):
@@ -45,6 +45,7 @@ def generate(run_seed, tier):
 
         g = W.Generator(rw, ref_compute, families=fams, knob_space=W.knob_space_default(), max_ops=7, pool_knobs=True, knob_prob=0.4)
         g.allow_sample = False
+        g.allow_persist = False
         recipe = g.generate(n_targets=rw.choice([1, 2]))
         if recipe is None or not recipe["targets"]:
             return None
@@ -147,6 +148,19 @@ def _execute(spec, ses):
             if df is not None:
                 return _done({"verdict": "violation", "oracle": "differs_in_receiver", "signature": "%s:%s" % (form, df[0]),
                               "detail": "%s: %s" % df, "target": t, "form": form}, ses, counters, spec)
+            # a second receiver with another PYTHONHASHSEED (the default situation between unrelated processes)
+            if spec.get("other_seed_receiver", True):
+                oh = [h for h in R.HASH_SEEDS if h != spec["hash_seed"]][counters["forms"] % (len(R.HASH_SEEDS) - 1)]
+                resp2 = pristine.call_eval(oh, {"kind": "pickle", "blob": blob, "det": d})
+                if "desc" in resp2:
+                    th = resp2["desc"]
+                    counters["compared_other_seed"] = counters.get("compared_other_seed", 0) + 1
+                    tr2 = th.get("result")
+                    if not (isinstance(tr2, dict) and "error" in tr2):
+                        df2 = pristine.diff_desc(here, th, fields=("name", "divisions", "npartitions", "result"))
+                        if df2 is not None:
+                            return _done({"verdict": "violation", "oracle": "differs_in_receiver", "signature": "%s:%s:other_hashseed" % (form, df2[0]),
+                                          "detail": "receiver with PYTHONHASHSEED=%d: %s: %s" % (oh, df2[0], df2[1]), "target": t, "form": form}, ses, counters, spec)
     return _done({"verdict": "ok", "nontrivial": nontrivial}, ses, counters, spec)
 
 
